@@ -1,10 +1,10 @@
 """Executable specification of the object container file layout (C04-C07): the bytes of
 a block as the specification prescribes them, codec payloads through assumed external
 codec functions."""
-from pyvc.dsl import spec, opaque, axiom
+from pyvc.dsl import spec, opaque, axiom, dset
 from pyvc.contracts import implies
-from spec.core import long_bytes
-from spec.avro import ITEMS_WF, ITEMS_REM, ITEM_VALS
+from spec.core import long_bytes, utf8
+from spec.avro import ITEMS_WF, ITEMS_REM, ITEM_VALS, ENC
 
 
 @opaque
@@ -155,3 +155,25 @@ def BLOCK_VIEWS(codec: str, s: object, ns: dict, bl: list, level: object, start:
     return BLOCK_VIEWS(codec, s, ns, bl, level, start, hi - 1) + [
         (bl[hi - 1][0], BLOCK_OFF(codec, s, ns, bl, level, start, hi - 1), BLOCK_LEN(codec, s, ns, bl, level, hi - 1),
          ITEMS_REM(s, ns, bl[hi - 1][1], 0, False))]
+
+
+@spec
+def META_ENC(m: dict, hi: int) -> dict:
+    """the header's metadata map: the first hi entries of m with their values UTF-8 encoded, in m's order"""
+    if hi <= 0:
+        return {}
+    return dset(META_ENC(m, hi - 1), list(m)[hi - 1], utf8(list(m.values())[hi - 1]))
+
+
+HEADER_SCHEMA = {
+    "type": "record", "name": "org.apache.avro.file.Header",
+    "fields": [{"name": "magic", "type": {"type": "fixed", "name": "magic", "size": 4}},
+               {"name": "meta", "type": {"type": "map", "values": "bytes"}},
+               {"name": "sync", "type": {"type": "fixed", "name": "sync", "size": 16}}]}
+
+
+@spec
+def HEADER_BYTES(m: dict, sync: bytes) -> bytes:
+    """the file header the Avro specification prescribes: the header record -- magic 'Obj' 1, the metadata map with
+    byte values, the 16-byte sync marker -- in the binary encoding of the specification's header schema"""
+    return ENC(HEADER_SCHEMA, {}, {"magic": b"Obj\x01", "meta": META_ENC(m, len(m)), "sync": sync}, {})
